@@ -86,6 +86,9 @@ const nilString = "__#NIL#__"
 type stringStats struct {
 	min string
 	max string
+	// seen is true once a value has been added, any string
+	// (including nilString) is a legal value.
+	seen bool
 }
 
 func newStringStats() *stringStats {
@@ -96,20 +99,21 @@ func newStringStats() *stringStats {
 }
 
 func (s *stringStats) add(val string) {
-	if s.min == nilString {
+	if !s.seen {
 		s.min = val
 	} else {
 		if val < s.min {
 			s.min = val
 		}
 	}
-	if s.max == nilString {
+	if !s.seen {
 		s.max = val
 	} else {
 		if val > s.max {
 			s.max = val
 		}
 	}
+	s.seen = true
 }
 
 func (s *stringStats) NullCount() *int64 {
@@ -121,14 +125,14 @@ func (s *stringStats) DistinctCount() *int64 {
 }
 
 func (s *stringStats) Min() []byte {
-	if s.min == nilString {
+	if !s.seen {
 		return nil
 	}
 	return []byte(s.min)
 }
 
 func (s *stringStats) Max() []byte {
-	if s.max == nilString {
+	if !s.seen {
 		return nil
 	}
 	return []byte(s.max)
